@@ -33,6 +33,7 @@ def run(ctx):
     ctx.guard(rule_c, ctx, ix)
     ctx.guard(rule_d, ctx, ix)
     ctx.guard(rule_e, ctx, ix, f)
+    ctx.guard(rule_g, ctx, ix)
     # the selection of a drawn region is the region's own containment test: its pre-selection boxes must not be inverted
     from ..report import BorrowedCtx
     from .C08 import rule_f as _boxes
@@ -507,3 +508,68 @@ def rule_e(ctx, ix, f):
                where=where(f, owner))
     if n < 2:
         raise AnalysisError('roi_to_subset_state: only %d per-category passes found' % n)
+
+
+ROUNDERS = ('round', 'around', 'round_', 'rint', 'floor', 'ceil', 'trunc', 'fix', 'isclose', 'allclose')
+
+
+def _absolute_scale_calls(fnode):
+    """Calls in a function that tie coordinate values to an absolute scale: rounding to a number of decimals / to integers, or a
+    comparison with an absolute tolerance (np.isclose has atol=1e-8 unless the call sets atol=0), applied to a value that
+    depends on a parameter of the function."""
+    params = {a.arg for a in fnode.args.posonlyargs + fnode.args.args + fnode.args.kwonlyargs}
+    # flow-insensitive closure: locals computed from parameters
+    dep = set(params)
+    for _ in range(6):
+        for st in ast.walk(fnode):
+            if isinstance(st, ast.Assign) and any(isinstance(n, ast.Name) and n.id in dep for n in ast.walk(st.value)):
+                for t in st.targets:
+                    dep |= {n.id for n in ast.walk(t) if isinstance(n, ast.Name)}
+            elif isinstance(st, (ast.For, ast.comprehension)) and any(isinstance(n, ast.Name) and n.id in dep for n in ast.walk(st.iter)):
+                dep |= {n.id for n in ast.walk(st.target) if isinstance(n, ast.Name)}
+    out = []
+    for c in ast.walk(fnode):
+        if not isinstance(c, ast.Call):
+            continue
+        nm = call_name(c)
+        if nm not in ROUNDERS:
+            continue
+        args = list(c.args) + ([c.func.value] if isinstance(c.func, ast.Attribute) and not
+                               (isinstance(c.func.value, ast.Name) and c.func.value.id in ('np', 'numpy', 'math')) else [])
+        if not any(isinstance(n, ast.Name) and n.id in dep for a in args for n in ast.walk(a)):
+            continue
+        if nm in ('isclose', 'allclose'):
+            atol = [k.value for k in c.keywords if k.arg == 'atol']
+            if atol and isinstance(atol[0], ast.Constant) and atol[0].value == 0:
+                continue            # purely relative
+        out.append(c)
+    return out
+
+
+def rule_g(ctx, ix):
+    """The polygon helpers behind the per-category ranges work in the units of the data: a selection must not change when the
+    numeric axis is expressed in other units, so they never round coordinates or compare them with an absolute tolerance."""
+    R = 'C09.g'
+    ctx.describe(R, 'polygon geometry is scale-free: no rounding of, and no absolute tolerance on, coordinate values', floor=4)
+    probe = ast.parse('def f(px, py):\n    pts = np.hstack([px, py])\n    return np.unique(np.round(pts, 8))\n').body[0]
+    if not _absolute_scale_calls(probe):
+        raise AnalysisError('C09.g: the detector no longer recognises its reference example')
+    mod = ix.module('glue.utils.geometry')
+    views = common.function_views(ix)
+    n = 0
+    for raw in mod.tree.body:
+        if not isinstance(raw, ast.FunctionDef):
+            continue
+        node = views(raw)
+        if node is None:
+            continue
+        n += 1
+        hits = _absolute_scale_calls(node)
+        ctx.ob(R, 'glue.utils.geometry:%s' % raw.name, 'coordinates are used as they are (no rounding, no absolute tolerance)', not hits,
+               detail='glue.utils.geometry.%s applies `%s` to coordinate values: the result depends on the absolute size of the numbers, '
+                      'so a region drawn on an axis with small values (1e-9 metres) selects other elements than the same region on the '
+                      'same data in other units - crossings closer than the rounding step merge and per-category ranges collapse'
+                      % (raw.name, norm(hits[0]) if hits else ''),
+               where='%s:%d' % (mod.relpath, getattr(hits[0], 'lineno', raw.lineno) if hits else raw.lineno))
+    if n < 4:
+        raise AnalysisError('C09.g: only %d functions of glue.utils.geometry scanned' % n)
